@@ -94,6 +94,8 @@ def gen_dir(rng, depth, knobs):
             pool = dirs + dirs + below * knobs.get("gp_weight", 1) + ["nodir"] + [x for x in names if x not in dirs][:1]
             if pool:
                 cp = list(dict.fromkeys(rng.choice(pool) for _ in range(rng.randint(1, 2))))
+        elif rng.random() < knobs.get("p_empty_copy", 0.15):
+            cp = [""]                       # a bare `copy_subdir:` line: "copy nothing here"
         es.insert(rng.randrange(len(es) + 1),
                   F_("index.md", titled=rng.random() > knobs.get("p_untitled_index", 0.08), ordered=ordered, cp=cp,
                      style=rng.randrange(4)))
@@ -102,7 +104,9 @@ def gen_dir(rng, depth, knobs):
     for e in es:
         if e["k"] == "f" and e["n"] != "index.md" and e["n"].endswith(".md") and \
                 rng.random() < knobs.get("p_leaf_meta", 0.2):
-            if dirs and rng.random() < 0.85:
+            if rng.random() < 0.2:
+                e["cp"] = [""]
+            elif dirs and rng.random() < 0.85:
                 e["cp"] = [rng.choice(dirs)]
             else:
                 e["ord"] = [rng.choice(MD_NAMES)]
@@ -276,7 +280,8 @@ def ascii_ok(es):
 def exhaustive_family():
     """all trees of a small family: top directory with/without index, every subset of four kinds of
     entry, two sub-directories with one of six contents, five ordered_subpage and three copy_subdir
-    choices for the top index and two copy_subdir choices for sub/index.md"""
+    choices for the top index and three copy_subdir choices for sub/index.md (absent, an empty line, a name),
+    each under two project-level copy_subdir lists; yields (project list, tree)"""
     T = lambda n, **k: F_(n, True, **k)  # noqa
     inner = [
         None,
@@ -288,8 +293,9 @@ def exhaustive_family():
     ]
     tops = list(itertools.product([0, 1], repeat=4))
     ords = [[], ["b.md", "a.md"], ["sub", "f.txt", "sub"], ["zz.md"], ["images", "index.md", ".h.md", "a.md"]]
-    cps = [[], ["images"], ["sub", "nodir"]]
-    for bits, s_in, i_in, o, c, sc in itertools.product(tops, inner, inner[:4], ords, cps, [[], ["images"]]):
+    cps = [[], ["images"], ["sub", "nodir"], [""]]
+    for proj, bits, s_in, i_in, o, c, sc in itertools.product([[], ["images"]], tops, inner, inner[:4], ords, cps,
+                                                              [[], ["images"], [""]]):
         es = []
         present = {"index.md", ".h.md", "zz.md"} | ({"a.md"} if bits[0] else set()) | ({"b.md"} if bits[1] else set()) \
             | ({"f.txt"} if bits[2] else set()) | ({"sub"} if s_in is not None else set()) \
@@ -314,7 +320,7 @@ def exhaustive_family():
         if i_in is not None:
             es.append(D_("images", i_in))
         es.append(T("index.md", ordered=o, cp=c))
-        yield es
+        yield proj, es
 
 
 # ----------------------------------------------------------------------------- end-to-end
@@ -369,6 +375,15 @@ def add_asset_copies(rng, es, above=()):
     for x in dirs:
         if x["n"] not in above:
             add_asset_copies(rng, x["es"], tuple(mine))
+
+
+def add_overrides(rng, es):
+    """under a project-level list: some pages opt out with a bare `copy_subdir:` line"""
+    for e in es:
+        if e["k"] == "d":
+            add_overrides(rng, e["es"])
+        elif e["n"].endswith(".md") and not e["cp"] and rng.random() < 0.3:
+            e["cp"] = [""]
 
 
 def make_bodies(rng, pages):
@@ -562,6 +577,8 @@ def end_to_end(chk, rng, nproj):
             if len(spec_pages_py(es, proj=proj)) >= 3:
                 break
         add_asset_copies(rng, es)
+        if proj:
+            add_overrides(rng, es)
         pages = spec_pages_py(es, proj=proj)
         bodies = make_bodies(rng, pages)
         res, fl, log, err, w = full_run(es, bodies, {"copy_subdir": proj[0]} if proj else None)
@@ -637,6 +654,12 @@ CORPUS = [
     (["media"], [F_("index.md"), F_("a.md"), D_("media", [F_("m.png")]),
                  D_("sub", [F_("index.md"), F_("b.md"), D_("media", [F_("n.png")])])]),
     ([], [F_("index.md"), F_("a.html"), F_("a.md"), D_("docs.md", [F_("index.md"), F_("x.md")])]),
+    (["media"], [F_("index.md"), D_("media", [F_("top.png")]),
+                 D_("t1", [F_("index.md", True, cp=[""]), D_("media", [F_("index.md"), F_("p.md"), F_("x.png")])]),
+                 D_("t2", [F_("index.md", True, cp=[""]), D_("media", [F_("y.png")]), F_("q.md", True, cp=[""])]),
+                 D_("t3", [F_("index.md"), D_("media", [F_("index.md"), F_("r.md")])]),
+                 D_("t4", [F_("index.md", True, cp=["img"]), D_("media", [F_("z.png")]), D_("img", [F_("i.png")]),
+                           F_("s.md", True, cp=[""]), F_("u.md")])]),
 ]
 
 
@@ -676,9 +699,9 @@ def run(chk):
     fam = list(exhaustive_family())
     chk.extra["exhaustive_family_size"] = len(fam)
     if quick:
-        inputs += [([], es) for es in rng.sample(fam, 260)]
+        inputs += rng.sample(fam, 300)
     else:
-        inputs += [([], es) for es in fam]
+        inputs += fam
         chk.extra["exhaustive"] = "family of %d trees (see exhaustive_family) enumerated completely" % len(fam)
     nrand = 520 if quick else 9000
     for i in range(nrand):
@@ -688,7 +711,7 @@ def run(chk):
         es = gen_dir(rng, rng.choice([1, 2, 3, 3]), knobs)
         if not any(e["n"] == "index.md" for e in es) and rng.random() < 0.8:
             es.append(F_("index.md"))
-        proj = rng.choice([[], [], [], ["media"], ["images", "sub"]])
+        proj = rng.choice([[], [], ["media"], ["images", "sub"], ["a"], ["zed", "images"], ["sub"]])
         inputs.append((proj, es))
     cases, infos = [], []
     dist = {"err": 0, "none": 0, "tree": 0, "depth": {}, "pages": 0}
